@@ -486,7 +486,7 @@ func permutations(n int) [][]int {
 // ---------------------------------------------------------------- C19
 
 func checkC19(rep *Report, rng *Rng, tier string) {
-	n := 250
+	n := 100
 	if tier == "thorough" {
 		n = 4000
 	}
